@@ -86,6 +86,14 @@ class C05(Check):
         for ex in (b"\x01\x00", b"\x01\x00\xff\xff", b"\x01\x00\x08\x00\x01", struct.pack("<HH", 0x9901, 7) + b"\x01", struct.pack("<HH", 5, 0xffff) + b"zz"):
             en = Entry(b"x", b"q", extra_central=ex, extra_local=ex); out.append(genzip.build([en])[0])
             en = Entry(b"x", b"q", extra_central=ex, z64=()); en.usize = 0xffffffff; out.append(genzip.build([en])[0])
+        # a 32-bit field at the escape value WITHOUT a ZIP64 extra, next to a central extra field that fills its 16-bit length:
+        # re-emitting such a record (append + finish / drop) has to add a ZIP64 block to an extra field with no room left
+        for xl in (65515, 65520, 65524, 65531):
+            ex = struct.pack("<HH", 0xcafe, xl - 4) + bytes(xl - 4)
+            for off in (20, 24, 42):
+                basex, _ = genzip.build([Entry(b"x", txt, extra_central=ex)])
+                c = basex.find(b"PK\x01\x02")
+                d = bytearray(basex); d[c + off:c + off + 4] = b"\xff\xff\xff\xff"; out.append(bytes(d))
         return out
 
     def gen(self):
@@ -94,6 +102,8 @@ class C05(Check):
         def add(d, kind):
             d = bytes(d)
             cases.append(("hostile " + hexs(d), dict(kind=kind, impl_only=True, n=len(d))))
+            if kind == "liar" and len(d) > 60000:
+                return           # 64 KiB extra fields: implementation only (the list-based model needs seconds per field walk)
             cases.append(("open " + hexs(d), dict(kind=kind, k="open")))
             for i in (0, 1):
                 cases.append(("entry %s %d 0 x 64" % (hexs(d), i), dict(kind=kind, k="entry")))
